@@ -98,3 +98,7 @@ impl NodeLocationPreference {
         }
     }
 }
+
+#[cfg(scylla_verif)]
+#[allow(missing_docs)]
+pub use locator::verif_hooks as verif_locator;
